@@ -542,3 +542,58 @@ func Unwrap(v ssa.Value) ssa.Value {
 		}
 	}
 }
+
+// AtomicAccess is one sync/atomic operation, in function form
+// (atomic.LoadUint32(&x.f)) or method form on a typed atomic (x.f.Load()).
+type AtomicAccess struct {
+	Kind string    // load | store | add | swap | cas | and | or
+	Addr ssa.Value // address of the word
+	Val  ssa.Value // stored / added / new value (nil for loads)
+}
+
+// AtomicOpOf recognises a sync/atomic operation.
+func AtomicOpOf(cc *ssa.CallCommon) (AtomicAccess, bool) {
+	obj := CalleeObj(cc)
+	if obj == nil || obj.Pkg() == nil || obj.Pkg().Path() != "sync/atomic" || len(cc.Args) == 0 || cc.IsInvoke() {
+		return AtomicAccess{}, false
+	}
+	name := obj.Name()
+	kind := ""
+	for _, k := range [][2]string{{"CompareAndSwap", "cas"}, {"Load", "load"}, {"Store", "store"}, {"Add", "add"}, {"Swap", "swap"}, {"And", "and"}, {"Or", "or"}} {
+		if strings.HasPrefix(name, k[0]) {
+			kind = k[1]
+			break
+		}
+	}
+	if kind == "" {
+		return AtomicAccess{}, false
+	}
+	a := AtomicAccess{Kind: kind, Addr: cc.Args[0]}
+	switch kind {
+	case "store", "add", "swap", "and", "or":
+		if len(cc.Args) >= 2 {
+			a.Val = cc.Args[1]
+		}
+	case "cas":
+		if len(cc.Args) >= 3 {
+			a.Val = cc.Args[2]
+		}
+	}
+	return a, true
+}
+
+// AtomicOn reports the atomic operation of an instruction if it targets the given field.
+func AtomicOn(in ssa.Instruction, f *types.Var) (AtomicAccess, bool) {
+	ci, ok := in.(ssa.CallInstruction)
+	if !ok {
+		return AtomicAccess{}, false
+	}
+	a, ok := AtomicOpOf(ci.Common())
+	if !ok {
+		return AtomicAccess{}, false
+	}
+	if fv := PathOf(a.Addr).Last(); fv == nil || fv.Origin() != f.Origin() {
+		return AtomicAccess{}, false
+	}
+	return a, true
+}
